@@ -546,3 +546,68 @@ Theorem C03_key_authentic_nonvacuous_splice :
 Proof. exact (key_auth_multi_splice_rejected). Qed.
 Print Assumptions C03_key_authentic_nonvacuous_splice.
 
+
+(* ====================================================================================================
+   NON-VACUITY of (A) C03_chunks_authentic.  Its premise [no_forgery P key aad chunks (log s1)] is about the run
+   itself; the three statements below exhibit, on CONCRETE data and by evaluation (Model/ChunkAuthToy.v: the RFC
+   ChaCha20-Poly1305 specification as the AEAD — [aead_ok] holds: Concrete.rfc_aead_ok —, key = 32 bytes of 7,
+   aad = [9], chunk size 2, honest chunks [[1;2];[3;4];[5]], fault-free reader and writer), runs for which the
+   premise is TRUE: one accepted with the complete plaintext, two rejected.  The premise is established by a
+   boolean checker proved sound (ChunkAuthExamples.no_forgery_b_sound).
+   ==================================================================================================== *)
+From Kestrel.Model Require ChunkAuthToy.
+From Kestrel.Proofs Require ChunkAuthExamples.
+
+(* the instance satisfies the standing premises of the theorem *)
+Theorem C03_chunks_authentic_nonvacuous_instance :
+  aead_ok ChunkAuthToy.ca_prims /\ length ChunkAuthToy.ca_key = 32%nat /\
+  ChunkAuthToy.ca_chunks = [[1; 2]; [3; 4]; [5]] /\
+  spec_chunks ChunkAuthToy.ca_prims ChunkAuthToy.ca_key ChunkAuthToy.ca_aad ChunkAuthToy.ca_chunks
+    = ChunkAuthToy.ca_rec0 ++ ChunkAuthToy.ca_rec1 ++ ChunkAuthToy.ca_rec2.
+Proof.
+  exact (conj ChunkAuthExamples.ca_prims_aead_ok (conj ChunkAuthExamples.ca_key_length
+          (conj eq_refl ChunkAuthExamples.ca_honest_records))).
+Qed.
+Print Assumptions C03_chunks_authentic_nonvacuous_instance.
+
+(* (1) the honest file: the premise holds, the run is Ok and the sink holds the complete plaintext *)
+Theorem C03_chunks_authentic_nonvacuous_honest :
+  exists s1 : io,
+    decrypt_chunks ChunkAuthToy.ca_prims ChunkAuthToy.ca_key ChunkAuthToy.ca_aad ChunkAuthToy.ca_cs
+      (mk_io (spec_chunks ChunkAuthToy.ca_prims ChunkAuthToy.ca_key ChunkAuthToy.ca_aad ChunkAuthToy.ca_chunks)
+             [] [] []) = (Ok tt, s1) /\
+    no_forgery ChunkAuthToy.ca_prims ChunkAuthToy.ca_key ChunkAuthToy.ca_aad ChunkAuthToy.ca_chunks (log s1) /\
+    w_out (wtr s1) = [1; 2; 3; 4; 5].
+Proof. exact (ChunkAuthExamples.chunks_authentic_premise_with_accept). Qed.
+Print Assumptions C03_chunks_authentic_nonvacuous_honest.
+
+(* (2) records 1 and 2 exchanged: the premise holds (no open succeeds that is not an honest seal) and the run is
+   rejected by the AEAD after releasing exactly chunk 0 *)
+Theorem C03_chunks_authentic_nonvacuous_swapped :
+  exists s1 : io,
+    decrypt_chunks ChunkAuthToy.ca_prims ChunkAuthToy.ca_key ChunkAuthToy.ca_aad ChunkAuthToy.ca_cs
+      (mk_io (ChunkAuthToy.ca_rec0 ++ ChunkAuthToy.ca_rec2 ++ ChunkAuthToy.ca_rec1) [] [] [])
+      = (Err DChaPolyDecrypt, s1) /\
+    no_forgery ChunkAuthToy.ca_prims ChunkAuthToy.ca_key ChunkAuthToy.ca_aad ChunkAuthToy.ca_chunks (log s1) /\
+    w_out (wtr s1) = [1; 2].
+Proof. exact (ChunkAuthExamples.chunks_authentic_premise_with_reject_swapped). Qed.
+Print Assumptions C03_chunks_authentic_nonvacuous_swapped.
+
+(* (3) the file cut after record 1: the premise holds and the run is rejected at the end of the input with chunks
+   0..1 released (a prefix of the plaintext, as the theorem says; not Ok) *)
+Theorem C03_chunks_authentic_nonvacuous_truncated :
+  exists s1 : io,
+    decrypt_chunks ChunkAuthToy.ca_prims ChunkAuthToy.ca_key ChunkAuthToy.ca_aad ChunkAuthToy.ca_cs
+      (mk_io (ChunkAuthToy.ca_rec0 ++ ChunkAuthToy.ca_rec1) [] [] [])
+      = (Err (DIORead OtherErr), s1) /\
+    no_forgery ChunkAuthToy.ca_prims ChunkAuthToy.ca_key ChunkAuthToy.ca_aad ChunkAuthToy.ca_chunks (log s1) /\
+    w_out (wtr s1) = [1; 2; 3; 4].
+Proof. exact (ChunkAuthExamples.chunks_authentic_premise_with_reject_truncated). Qed.
+Print Assumptions C03_chunks_authentic_nonvacuous_truncated.
+
+(* the checker used for the premise is sound *)
+Theorem C03_no_forgery_checker_sound :
+  forall (P : prims) (key aad : bytes) (chunks : list bytes) (lg : list event),
+  ChunkAuthToy.no_forgery_b P key aad chunks lg = true -> no_forgery P key aad chunks lg.
+Proof. exact (ChunkAuthExamples.no_forgery_b_sound). Qed.
+Print Assumptions C03_no_forgery_checker_sound.
